@@ -16,12 +16,12 @@ namespace tool_geodsolve {
 }
 using namespace gd; using namespace gv;
 
-// Failing inputs that belong to a *decidable class* of an open finding of the unchanged library carry a tag in their details
-// (known_findings.json matches on it); everything outside the class still alarms.  `sink` collects the failures of one run of
-// props() so that the run can be repeated on a copy of the solver with the candidate repair and the class be decided by its effect.
+// Failing inputs that belong to the *decidable class* of an open finding of the unchanged library carry a tag in their details
+// (known_findings.json matches on it); everything outside the class still alarms.  Open now: F71 (second root on strongly prolate
+// ellipsoids).  F68 (a12 > 180 at the equatorial cut-off), F69 (zero-length answer past the cut-off), F70 (bisection budget) and F67
+// (unassigned s12x in GeodesicExact) were found by these strata and are repaired (62054f0, 8088996, fe4d9c6, dc6d194): no class, they alarm.
 static std::string class_tag;
-static std::vector<std::pair<std::string, std::string>>* sink = nullptr;
-static void BAD(const std::string& rel, const std::string& det) { if (sink) sink->push_back({rel, det}); else gv::bad(rel, det + class_tag); }
+static void BAD(const std::string& rel, const std::string& det) { gv::bad(rel, det + class_tag); }
 
 // The accuracy tables of Geodesic / GeodesicExact are for ellipsoids scaled to a quarter meridian of 10 000 km ("1/4 meridian = 10e6 m"
 // in GeodesicExact.cpp).  geodcommon.hpp scales the tolerance with a / 6378137, which is the same thing for nearly spherical ellipsoids;
@@ -77,25 +77,6 @@ template<class Geod> static void props(const char* name, const Geod& g, double a
     if (bits(q.s12) != bits(r.s12) || (unique && !(aeq(q.azi1, r.azi1) && aeq(q.azi2, r.azi2)))) BAD(std::string("symmetry-360-") + name, "result changes when multiples of 360 are added to the longitudes"); } }
 }
 
-// F63 (open): the bisection budget maxit2_ = maxit1_ + digits + 10 does not suffice when cos(alp1) (or sin) at the root is as small as
-// the latitudes (nearly equatorial, nearly antipodal points on strongly eccentric ellipsoids).  Class decided by its cure: the same
-// relations hold on a copy of the solver object whose maxit2_ is maxit1_ + 2 digits + 20 (the candidate repair).
-static void set_budget(Geodesic& h);
-static void set_budget(GeodesicExact& h);
-// the input class of F63: both points within 1e-3 deg of the equator (any ellipsoid), and the solver object has (at least) the
-// budget the library ships with - a change that lowers the budget, or failures elsewhere, are not part of the finding
-template<class Geod> static bool budget_class(const Geod& g, double f, double lat1, double lat2) {
-  (void)f; return std::fabs(lat1) <= 1e-3 && std::fabs(lat2) <= 1e-3 && g.maxit2_ >= g.maxit1_ + Math::digits() + 10 && g.maxit2_ < g.maxit1_ + 2 * Math::digits() + 20; }
-template<class Geod> static void budget_props(const char* name, const Geod& g, double acc, double ea, double f, double lat1, double lon1, double lat2, double lon2) {
-  std::vector<std::pair<std::string, std::string>> first, second;
-  sink = &first; props(name, g, acc, ea, f, lat1, lon1, lat2, lon2); sink = nullptr;
-  if (first.empty()) return;
-  std::string tag;
-  if (class_tag.empty() && budget_class(g, f, lat1, lat2)) { Geod h(g); set_budget(h);
-    sink = &second; props(name, h, acc, ea, f, lat1, lon1, lat2, lon2); sink = nullptr; if (second.empty()) tag = " [class:bisection-budget]"; }
-  for (auto& b : first) gv::bad(b.first, b.second + class_tag + tag);
-}
-
 static Reg r_inv("ginverse", [](const Args& a) {
   double ea = unhx(a[0]), f = unhx(a[1]), lat1 = unhx(a[2]), lon1 = unhx(a[3]), lat2 = unhx(a[4]), lon2 = unhx(a[5]);
   Geodesic G(ea, f), X(ea, f, true); GeodesicExact E(ea, f);
@@ -103,14 +84,11 @@ static Reg r_inv("ginverse", [](const Args& a) {
   emit(hx(rg.s12) + " " + hx(rg.azi1) + " " + hx(rg.azi2) + " " + hx(rg.a12) + " " + hx(re.s12) + " " + hx(re.azi1) + " " + hx(re.azi2) + " " + hx(re.a12));
   if (!(std::isfinite(lat1) && std::isfinite(lat2) && std::isfinite(lon1) && std::isfinite(lon2)) || std::fabs(lat1) > 90 || std::fabs(lat2) > 90) return;
   if (bits(rx.s12) != bits(re.s12) || bits(rx.azi1) != bits(re.azi1) || bits(rx.azi2) != bits(re.azi2) || bits(rx.m12) != bits(re.m12) || bits(rx.S12) != bits(re.S12)) BAD("exact-true-delegation", "Geodesic(a,f,true).Inverse differs from GeodesicExact.Inverse");
-  // F62 (open): equatorial end points 1-64 ulp beyond the cut-off lon12 = 180(1-f) of the equatorial branch, f >= 0.3, answered with s12 = 0
-  { double e, l12 = std::fabs(Math::AngDiff(lon1, lon2, e)); double over = (l12 - 180 * (1 - f)) + (std::signbit(Math::AngDiff(lon1, lon2)) ? -e : e);
-    class_tag = (f >= 0.3 && Math::AngRound(lat1) == 0 && Math::AngRound(lat2) == 0 && over > 0 && over <= 64 * ulp(180.0) && (rg.s12 == 0 || re.s12 == 0)) ? " [class:equatorial-cutoff-roundoff]" : "";
-    // F65 (open): strongly prolate ellipsoids, end points within 1e-5 deg of opposite meridians: the solver converges to the second root of
-    // lambda12(alp1) = lam12 next to the meridian, a geodesic with a conjugate point inside (m12 < 0) that is not the shortest
-    if (class_tag.empty() && f <= -0.25 && std::fabs(180 - l12) <= 1e-5 && re.m12 < -1) class_tag = " [class:prolate-second-root]"; }
-  budget_props("series", G, acc_series(f), ea, f, lat1, lon1, lat2, lon2);
-  budget_props("exact", E, acc_exact(f), ea, f, lat1, lon1, lat2, lon2);
+  // F71 (open): strongly prolate ellipsoids, end points within 1e-5 deg of opposite meridians: the solver converges to the second root of
+  // lambda12(alp1) = lam12 next to the meridian, a geodesic with a conjugate point inside (m12 < 0) that is not the shortest
+  { double e, l12 = std::fabs(Math::AngDiff(lon1, lon2, e)); class_tag = (f <= -0.25 && std::fabs(180 - l12) <= 1e-5 && re.m12 < -1) ? " [class:prolate-second-root]" : ""; }
+  props("series", G, acc_series(f), ea, f, lat1, lon1, lat2, lon2);
+  props("exact", E, acc_exact(f), ea, f, lat1, lon1, lat2, lon2);
   // the two solvers agree
   if (!std::isnan(acc_series(f)) && !std::isnan(acc_exact(f))) {
     double tol = tolq(acc_series(f), ea, f, rg.a12) + tolq(acc_exact(f), ea, f, re.a12);
@@ -143,30 +121,13 @@ template<class Geod, class Line> static void entry_points(const char* name, cons
     double la, lo; L.Position(L.Distance(), la, lo); double d = (double)oracle::ground(ea, lat2, lon2, la, lo);
     if (!(d <= 3 * tol)) BAD(rel("inverseline-closure"), "the reference point of InverseLine is " + std::to_string(d * 1e9) + " nm from point 2"); }
 }
-static void set_budget(Geodesic& h) { h.maxit2_ = h.maxit1_ + 2 * Math::digits() + 20; h._geodexact.maxit2_ = h.maxit2_; }
-static void set_budget(GeodesicExact& h) { h.maxit2_ = h.maxit1_ + 2 * Math::digits() + 20; }
-template<class Geod, class Line> static void budget_entry(const char* name, const Geod& g, double acc, double ea, double f, double lat1, double lon1, double lat2, double lon2) {
-  std::vector<std::pair<std::string, std::string>> first, second;
-  sink = &first; entry_points<Geod, Line>(name, g, acc, ea, f, lat1, lon1, lat2, lon2); sink = nullptr;
-  if (first.empty()) return;
-  std::string tag; { double e, l12 = std::fabs(Math::AngDiff(lon1, lon2, e)); double over = (l12 - 180 * (1 - f)) + (std::signbit(Math::AngDiff(lon1, lon2)) ? -e : e); double s; g.Inverse(lat1, lon1, lat2, lon2, s);
-    if (f >= 0.3 && Math::AngRound(lat1) == 0 && Math::AngRound(lat2) == 0 && over > 0 && over <= 64 * ulp(180.0) && s == 0) tag = " [class:equatorial-cutoff-roundoff]"; }
-  if (tag.empty() && budget_class(g, f, lat1, lat2)) { Geod h(g); set_budget(h);
-    sink = &second; entry_points<Geod, Line>(name, h, acc, ea, f, lat1, lon1, lat2, lon2); sink = nullptr; if (second.empty()) tag = " [class:bisection-budget]"; }
-  // F64 (open): GeodesicExact::GenInverse reads s12x, which Lengths only sets when DISTANCE is requested, in the short-line guard of the
-  // meridional branch: for meridional points less than 8 eps apart a12 depends on the output mask (uninitialised read)
-  bool exactsolver = std::string(name).compare(0, 5, "exact") == 0; double sfull, a12full = g.Inverse(lat1, lon1, lat2, lon2, sfull);
-  for (auto& b : first) { std::string t = tag;
-    if (t.empty() && exactsolver && a12full < 2.1e-13 && (b.first.compare(0, 16, "inverse-overload") == 0 || b.first.compare(0, 15, "inverseline-arc") == 0)) t = " [class:exact-meridional-mask]";
-    gv::bad(b.first, b.second + t); }
-}
 static Reg r_entry("ginv_entry", [](const Args& a) {
   double ea = unhx(a[0]), f = unhx(a[1]), lat1 = unhx(a[2]), lon1 = unhx(a[3]), lat2 = unhx(a[4]), lon2 = unhx(a[5]);
   Geodesic G(ea, f), X(ea, f, true); GeodesicExact E(ea, f);
   class_tag = "";
-  budget_entry<Geodesic, GeodesicLine>("series", G, acc_series(f), ea, f, lat1, lon1, lat2, lon2);
-  budget_entry<GeodesicExact, GeodesicLineExact>("exact", E, acc_exact(f), ea, f, lat1, lon1, lat2, lon2);
-  budget_entry<Geodesic, GeodesicLine>("exact-true", X, acc_exact(f), ea, f, lat1, lon1, lat2, lon2);
+  entry_points<Geodesic, GeodesicLine>("series", G, acc_series(f), ea, f, lat1, lon1, lat2, lon2);
+  entry_points<GeodesicExact, GeodesicLineExact>("exact", E, acc_exact(f), ea, f, lat1, lon1, lat2, lon2);
+  entry_points<Geodesic, GeodesicLine>("exact-true", X, acc_exact(f), ea, f, lat1, lon1, lat2, lon2);
   emit("0");
 });
 
